@@ -1,6 +1,7 @@
 package drivers
 
 import (
+	"github.com/libp2p/go-libp2p/core/crypto"
 	"encoding/binary"
 	"bytes"
 	"context"
@@ -545,7 +546,91 @@ func goldenValues() map[string]string {
 	sb, _ := proto.MarshalOptions{Deterministic: true}.Marshal(sp)
 	out["state.bytes"] = hex.EncodeToString(sb)
 	out["cursor.bytes"] = hex.EncodeToString(block.VerifBatchDataEncode([][]byte{[]byte("id-1"), {}, []byte("id-three")}))
+	// the same types with fields at their zero value, one at a time and all together: what an encoder may be
+	// tempted to leave out must keep its bytes (and with them hashes and signing payloads)
+	hv := func(name string, x types.Header) {
+		bz, _ := x.MarshalBinary()
+		out["header."+name+".bytes"] = hex.EncodeToString(bz)
+		out["header."+name+".hash"] = hex.EncodeToString(x.Hash())
+		if pl, err := types.DefaultSignaturePayloadProvider(&x); err == nil {
+			out["header."+name+".signpayload"] = hex.EncodeToString(pl)
+		}
+	}
+	hz := h
+	hz.Version = types.Version{}
+	hv("zeroversion", hz)
+	hz = h
+	hz.Version = types.Version{Block: 11}
+	hv("zeroappversion", hz)
+	hz = h
+	hz.BaseHeader.Time = 0
+	hv("zerotime", hz)
+	hz = h
+	hz.BaseHeader.ChainID = ""
+	hv("nochainid", hz)
+	hz = h
+	hz.LastHeaderHash, hz.LastCommitHash = nil, nil
+	hv("nolasthashes", hz)
+	hz = h
+	hz.ConsensusHash, hz.ValidatorHash = nil, nil
+	hv("nooptionalhashes", hz)
+	hv("allzero", types.Header{})
+	hv("heightonly", types.Header{BaseHeader: types.BaseHeader{Height: 1}})
+	dv := func(name string, x *types.Data) {
+		bz, _ := x.MarshalBinary()
+		out["data."+name+".bytes"] = hex.EncodeToString(bz)
+		out["data."+name+".hash"] = hex.EncodeToString(x.Hash())
+		out["data."+name+".commitment"] = hex.EncodeToString(x.DACommitment())
+	}
+	dv("nometadata", &types.Data{Txs: d.Txs})
+	dv("notxs", &types.Data{Metadata: d.Metadata})
+	dv("zerometadata", &types.Data{Txs: d.Txs, Metadata: &types.Metadata{}})
+	dv("onetxempty", &types.Data{Txs: types.Txs{[]byte("")}, Metadata: d.Metadata})
+	mz, _ := (&types.Metadata{}).MarshalBinary()
+	out["metadata.zero.bytes"] = hex.EncodeToString(mz)
+	sv := func(name string, x types.State) {
+		xp, err := x.ToProto()
+		if err != nil {
+			out["state."+name+".bytes"] = "error:" + err.Error()
+			return
+		}
+		bz, _ := proto.MarshalOptions{Deterministic: true}.Marshal(xp)
+		out["state."+name+".bytes"] = hex.EncodeToString(bz)
+	}
+	sz := s
+	sz.Version = types.Version{}
+	sv("zeroversion", sz)
+	sz = s
+	sz.DAHeight, sz.LastBlockHeight = 0, 0
+	sv("zeroheights", sz)
+	sz = s
+	sz.AppHash = nil
+	sv("noapphash", sz)
+	sv("allzero", types.State{})
+	out["cursor.empty.bytes"] = hex.EncodeToString(block.VerifBatchDataEncode(nil))
+	out["cursor.oneempty.bytes"] = hex.EncodeToString(block.VerifBatchDataEncode([][]byte{{}}))
+	// signed header and signed data with a fixed key
 	seed := sha256.Sum256([]byte("golden-seed"))
-	_ = seed
+	if priv, pub, err := crypto.GenerateEd25519Key(bytes.NewReader(append(seed[:], seed[:]...))); err == nil {
+		addr := types.KeyAddress(pub)
+		for name, hx := range map[string]types.Header{"full": h, "zeroversion": func() types.Header { x := h; x.Version = types.Version{}; return x }()} {
+			hx.ProposerAddress = addr
+			pl, _ := types.DefaultSignaturePayloadProvider(&hx)
+			sig, _ := priv.Sign(pl)
+			sh := types.SignedHeader{Header: hx, Signature: sig, Signer: types.Signer{PubKey: pub, Address: addr}}
+			bz, _ := sh.MarshalBinary()
+			out["signedheader."+name+".bytes"] = hex.EncodeToString(bz)
+			out["signedheader."+name+".hash"] = hex.EncodeToString(sh.Hash())
+			out["signedheader."+name+".valid"] = fmt.Sprint(sh.ValidateBasic() == nil)
+		}
+		dbz, _ := d.MarshalBinary()
+		dsig, _ := priv.Sign(dbz)
+		sd := types.SignedData{Data: *d, Signature: dsig, Signer: types.Signer{PubKey: pub, Address: addr}}
+		sdb, _ := sd.MarshalBinary()
+		out["signeddata.bytes"] = hex.EncodeToString(sdb)
+		sd0 := types.SignedData{Data: *d}
+		sdb0, _ := sd0.MarshalBinary()
+		out["signeddata.unsigned.bytes"] = hex.EncodeToString(sdb0)
+	}
 	return out
 }
